@@ -3,8 +3,9 @@
   (struct_node.go, value_node.go, version.go, generator/parameter/value.go).  Core Lean only.
 
   A graph is a total map  id → node  (finite graphs embed by padding with parameter nodes; all
-  theorems hold for every such map).  Guard `WF`: every dependency of node `i` has an id `< i`
-  (acyclic by construction; the Go API has no cycle check and a cycle makes `Outdated()` diverge).
+  theorems hold for every such map).  Guard `Acyclic F`: the graph admits a
+  ranking (every dependency has a smaller rank) bounded by the evaluation fuel `F`; ids are just
+  names (the Go API has no cycle check and a cycle makes `Outdated()` diverge).
 
   * parameter node  (`nodes.ValueNode`, `parameter.Value`):  value, version;  `Set` stores the
     value and bumps the version;  `State()` is always `Processed`.
@@ -112,16 +113,23 @@ def eval : Nat → Graph V → Nat → Graph V × Log
         (r.1.set i (.struct (s.executed r.1 r.2.1)), r.2.2 ++ [(i, s.version + 1)])
       else (g, [])
 
-/-! ### canonical (fuel-free) entry points: fuel `i+1` suffices for node `i` under `WF` -/
+/-! ### the guard: the graph is acyclic with fewer than `F` levels
 
-def WF (g : Graph V) : Prop := ∀ i s, g i = .struct s → ∀ d ∈ s.deps, d < i
+    `rank` is a witness (any topological ranking bounded by the fuel `F`); the Go API has no cycle
+    check and a cycle makes `Outdated()` recurse forever.  With fuel `F` the three recursive
+    functions never run out of fuel on such a graph (`Outdated_eq`, `Spec_eq`, `Eval_eq`). -/
 
-def Outdated (g : Graph V) (i : Nat) : Bool := outdated (i+1) g i
-def Spec (g : Graph V) (i : Nat) : V := evalSpec (i+1) g i
-def Eval (g : Graph V) (i : Nat) : Graph V × Log := eval (i+1) g i
+def Ranked (rank : Nat → Nat) (F : Nat) (g : Graph V) : Prop :=
+  (∀ i, rank i < F) ∧ ∀ i s, g i = .struct s → ∀ d ∈ s.deps, rank d < rank i
+
+def Acyclic (F : Nat) (g : Graph V) : Prop := ∃ rank, Ranked rank F g
+
+def Outdated (F : Nat) (g : Graph V) (i : Nat) : Bool := outdated F g i
+def Spec (F : Nat) (g : Graph V) (i : Nat) : V := evalSpec F g i
+def Eval (F : Nat) (g : Graph V) (i : Nat) : Graph V × Log := eval F g i
 
 /-- executable dependency cone: `k` is a reflexive-transitive dependency of `j`
-    (`= Reach g j k` under `WF` with fuel `> j`, lemma `inCone_iff`) -/
+    (`= Reach g j k` on a graph ranked below the fuel, lemma `inCone_iff`) -/
 def inCone : Nat → Graph V → Nat → Nat → Bool
   | 0, _, j, k => j == k
   | f+1, g, j, k => j == k ||
@@ -153,15 +161,11 @@ def removeAt {α : Type} : List α → Nat → Option (List α)
   | _ :: xs, 0 => some xs
   | x :: xs, n+1 => (removeAt xs n).map (x :: ·)
 
-/-- the model's no-cycle guard on a new connection -/
-def srcOk (i : Nat) : Option Nat → Bool
-  | some j => decide (j < i)
-  | none => true
-
-/-- one API call.  `none` = the call is rejected: Go panics (SetInput on a parameter, unknown port,
-    slice index out of range — all before any state is written) or the guard `src < i` of the
-    model (no cycle) is violated. -/
-def step? (g : Graph V) : Op V → Option (Graph V × Log)
+/-- one API call with evaluation fuel `F`.  `none` = the call is rejected: Go panics (SetInput on a
+    parameter, unknown port, slice index out of range — all before any state is written).
+    Like the Go API, the model has NO cycle check: the theorems assume that the graph stays
+    `Acyclic` (predicate `Valid` on histories). -/
+def step? (F : Nat) (g : Graph V) : Op V → Option (Graph V × Log)
   | .setParam p v =>
     match g p with
     | .param _ n => some (g.set p (.param v (n+1)), [])
@@ -170,35 +174,36 @@ def step? (g : Graph V) : Op V → Option (Graph V × Log)
     match g i with
     | .param _ _ => none
     | .struct s =>
-      if srcOk i src then
-        (listSet s.scalars port src).map fun sc => (g.set i (.struct { s with scalars := sc, flag := true }), [])
-      else none
+      (listSet s.scalars port src).map fun sc => (g.set i (.struct { s with scalars := sc, flag := true }), [])
   | .arrayAdd i arr src =>
     match g i with
     | .param _ _ => none
     | .struct s =>
-      if src < i then
-        (listModify (fun a => some (a ++ [src])) s.arrays arr).map fun ar =>
-          (g.set i (.struct { s with arrays := ar, flag := true }), [])
-      else none
+      (listModify (fun a => some (a ++ [src])) s.arrays arr).map fun ar =>
+        (g.set i (.struct { s with arrays := ar, flag := true }), [])
   | .arrayRemove i arr idx =>
     match g i with
     | .param _ _ => none
     | .struct s =>
       (listModify (fun a => removeAt a idx) s.arrays arr).map fun ar =>
         (g.set i (.struct { s with arrays := ar, flag := true }), [])
-  | .read i => some (Eval g i)
+  | .read i => some (Eval F g i)
 
 /-- a rejected call leaves the state alone -/
-def step (g : Graph V) (op : Op V) : Graph V × Log := (step? g op).getD (g, [])
+def step (F : Nat) (g : Graph V) (op : Op V) : Graph V × Log := (step? F g op).getD (g, [])
 
 /-- run a history; the log of all executions, oldest first -/
-def run (g : Graph V) : List (Op V) → Graph V × Log
+def run (F : Nat) (g : Graph V) : List (Op V) → Graph V × Log
   | [] => (g, [])
   | op :: ops =>
-    let r := step g op
-    let r2 := run r.1 ops
+    let r := step F g op
+    let r2 := run F r.1 ops
     (r2.1, r.2 ++ r2.2)
+
+/-- the guard on a history: the graph is acyclic (with fewer than `F` levels) after every call -/
+def Valid (F : Nat) (g : Graph V) : List (Op V) → Prop
+  | [] => True
+  | op :: ops => Acyclic F (step F g op).1 ∧ Valid F (step F g op).1 ops
 
 /-! ### the pre-2752e26 behaviour: `Dependencies()` enumerated through Go maps, so the order may be
     permuted between calls.  `perm k ds` is the enumeration returned by the `k`-th call. -/
